@@ -3,7 +3,7 @@ import ast
 
 import z3
 
-from .sorts import (PyNav, PyDict, PyProperty, ArrT, SV, PyVal, PyTuple, Closure, BoundMethod, ModuleRef, ClassRef, SpecFn, INT, BOOL, STR, REAL, VAL, NONE,
+from .sorts import (PyTypeOf, PyNav, PyDict, PyProperty, ArrT, SV, PyVal, PyTuple, Closure, BoundMethod, ModuleRef, ClassRef, SpecFn, INT, BOOL, STR, REAL, VAL, NONE,
                     NONE_V, RefT, SeqT, SetT, MapT, TupT, Val, Ref, null, zsort, fresh, mk_bool, mk_int, mk_str, fresh_name)
 from .values import (nth, OutsideSubset, coerce, box, unbox, py_eq, truthy, ite, tup_items, empty_map, join_sort, is_ref,
                      int_to_str, str_to_int, is_int_literal, default_term)
@@ -743,6 +743,11 @@ class CallMixin(object):
         return SV(SetT(seq.sort.elem), z3.Lambda([x], self.seq_contains(seq, SV(seq.sort.elem, x))))
 
     bi_frozenset = bi_set
+
+    def bi_type(self, args, kwargs, st, node):
+        if len(args) == 1 and isinstance(args[0], SV) and (is_ref(args[0].sort) or args[0].sort == VAL):
+            return PyTypeOf(args[0])
+        raise OutsideSubset('type() of %s' % getattr(args[0], 'sort', type(args[0]).__name__))
 
     def bi_range(self, args, kwargs, st, node):
         if len(args) not in (1, 2):
